@@ -395,7 +395,7 @@ def gen_history(rng, inputs, dicts, t, c, fids, aux_cdict_slot, allow_abort_tail
     kinds = []
     nitems = rng.choice([1, 1, 2, 2, 3, 4])
     menu = ["frame"] * 4 + ["same", "same", "nearwin", "nearwin", "partial", "partial", "tinydst", "pledgelie", "burst", "bigthensmall",
-                             "rowframe", "optframe", "copysrc", "copydst", "wsjunk", "wsjunk"]
+                             "rowframe", "optframe", "copysrc", "copydst", "wsjunk", "wsjunk", "midset", "midset"]
     for it in range(nitems):
         k = rng.choice(menu)
         last = it == nitems - 1
@@ -460,6 +460,19 @@ def gen_history(rng, inputs, dicts, t, c, fids, aux_cdict_slot, allow_abort_tail
             for kk, v in pr.items():
                 L.append("set %d %d %d" % (c, P[kk], v))
             L.append("A %d %d %d %d" % (c, src[0], rng.randint(1, src[1]), rng.randint(0, 1)))
+            if last and allow_abort_tail:
+                kinds.append("abort-tail")
+            else:
+                L.append("reset %d %d" % (c, rng.choice([1, 3])))
+        elif k == "midset":
+            # an ACCEPTED parameter update in the middle of a single-thread frame (raises cctx->cParamsChanged, which only
+            # the multithreaded branch consumes): must not reach the next frame, with or without a reset in between
+            src = rng.choice([i for i in inputs if 1000 < i[1] <= 70000])
+            lv = rng.choice([1, 3, 5])
+            L.append("reset %d 3" % c)
+            L.append("set %d %d %d" % (c, P["level"], lv))
+            L.append("A %d %d %d 0" % (c, src[0], rng.randint(100, 1000)))
+            L.append("set %d %d %d" % (c, P["level"], lv if rng.random() < 0.5 else rng.choice([1, 3, 5])))
             if last and allow_abort_tail:
                 kinds.append("abort-tail")
             else:
@@ -693,10 +706,10 @@ def build_mt_group(rng, gid, bigs, inputs, dicts):
         if rng.random() < 0.3:
             t.pledge = 1
     r = rng.random()
-    if r < 0.2:
+    if r < 0.3:       # a dictionary makes the frame's cParams differ from the unknown-size / no-dictionary ones (midset history)
         d = rng.choice(dicts)
         t.dct = ("prefix", d[0], d[1])
-    elif r < 0.35:
+    elif r < 0.5:
         d = rng.choice(dicts)
         t.dct = ("load", d[0], d[1], 1, 0)
     g = Group(gid, t)
@@ -710,13 +723,24 @@ def build_mt_group(rng, gid, bigs, inputs, dicts):
     plan = [("ref", workers[0], "heapz", 0, 0, False), ("w%d" % workers[1], workers[1], "heap", rng.choice([0, 6]), 0, False),
             ("w%d-jit" % workers[2], workers[2], "heap", rng.choice([4, 12]), rng.choice([0, 300]), False),
             ("w%d-fail-hist" % workers[0], workers[0], "heap", rng.choice([0, 8]), rng.choice([200, 600]), True),
-            ("w%d-hist" % workers[1], workers[1], "heapz", rng.choice([0, 3, 15]), 0, True)]
+            ("w%d-hist" % workers[1], workers[1], "heapz", rng.choice([0, 3, 15]), 0, True),
+            ("w%d-midset" % workers[2], workers[2], "heap", 0, 0, "midset")]
     for label, w, kind, jit, fail, hist in plan:
         c = slot[0]
         slot[0] += 1
         L.append("ctx %d %s 0" % (c, kind))
         kinds = ["mt", "w%d" % w]
-        if hist:
+        if hist == "midset":
+            # a single-thread frame with an ACCEPTED mid-frame parameter update, left unfinished: cctx->cParamsChanged is
+            # raised and only the multithreaded branch would consume it - it must not reach the target frame
+            hs = rng.choice(inputs)
+            lv = rng.choice([1, 3, 5])
+            L.append("reset %d 3" % c)
+            L.append("set %d %d %d" % (c, P["level"], lv))
+            L.append("A %d %d %d 0" % (c, hs[0], max(1, min(hs[1], rng.randint(100, 1000)))))
+            L.append("set %d %d %d" % (c, P["level"], lv))
+            kinds.append("midset")
+        elif hist:
             # an MT frame with another worker count / parameters first (ZSTDMT_resize, pools reused), maybe abandoned
             hp = {"level": rng.choice([1, 3, 5]), "nbWorkers": rng.choice([1, 2, 3, 4]), "jobSize": 1}
             hs = rng.choice(bigs)
